@@ -9,7 +9,7 @@ Open Scope Z_scope.
 (* the tree the model describes: which repairs it contains (see Proxy.fixes).  Flags not yet
    true here are defects the checks still have to exhibit before they are repaired. *)
 Definition current_fixes : fixes :=
-  {| fx_wiring := true; fx_udp_via_listener := true; fx_indialog_invite := true; fx_bracket_host := true |}.
+  {| fx_wiring := true; fx_udp_via_listener := true; fx_indialog_invite := true; fx_bracket_host := true; fx_resolved_key := true |}.
 
 Definition d_listen : dec listen_cfg :=
   dlet a := d_bytes in dlet u := d_int in dlet t := d_int in dlet bs := d_list d_bytes in
